@@ -185,8 +185,9 @@ def _enc_cb(name, arg):
         for src_full, dests in sorted(arg.items()):
             for dst_full, attrs in sorted(dests.items()):
                 dsid, _, deid = dst_full.partition(".")
+                ssid, _, seid = src_full.partition(".")
                 for a, v in sorted(attrs.items()):
-                    out.append({"srcfull": src_full, "dst": dsid, "de": deid, "da": a, "val": str(v)})
+                    out.append({"src": ssid, "se": seid, "dst": dsid, "de": deid, "da": a, "val": str(v)})
         return out
     if name == "set_event":
         return arg
